@@ -21,7 +21,7 @@ static void run(unsigned pm, int k, const vector<pair<int, int>> &targets, const
     string desc = "pins {"; for (int i = 0; i < 6; i++) if (pm >> i & 1) desc += DEFS[i].name + string(" "); desc += mcx::fmt("} %d connector(s) to", k); for (int i = 0; i < k; i++) desc += mcx::fmt(" (%d,%d)", targets[i].first, targets[i].second); desc += " " + cfg_str(c);
     ctx.announce(desc); ctx.count("evaluations");
     vector<string> kc; if (c.inside == 0 && c.dirMode != 2) kc.push_back("pin_on_boundary");
-    char whyBuf[100] = "", obsBuf[300] = ""; bool aborted = false; char abortWhat[160] = ""; int nTrans = 0; bool nontriv = false;
+    char whyBuf[100] = "", obsBuf[300] = ""; bool aborted = false; char abortWhat[600] = ""; int nTrans = 0; bool nontriv = false;
     if (c.heap) mcx::heap_begin(c.heap, mcx::REUSE_NONE, 0);
     {
     string why, obs;
@@ -72,12 +72,12 @@ static void run(unsigned pm, int k, const vector<pair<int, int>> &targets, const
             for (auto &u : used) if (used.count(u) > 1 && why.empty()) { why = "exclusive pin used twice"; obs = mcx::fmt("pin at (%g,%g)", u.first, u.second); }
         }
         delete r;
-    } catch (vpsc::CriticalFailure &f) { aborted = true; string w = f.what(); size_t p = w.find("expression"); snprintf(abortWhat, sizeof abortWhat, "%s", w.substr(p == string::npos ? 0 : p, 150).c_str()); why.clear(); }
+    } catch (vpsc::CriticalFailure &f) { aborted = true; snprintf(abortWhat, sizeof abortWhat, "%s", f.what().c_str()); why.clear(); }
     snprintf(whyBuf, sizeof whyBuf, "%s", why.c_str()); snprintf(obsBuf, sizeof obsBuf, "%s", obs.c_str());
     }
     if (c.heap) mcx::heap_end();
     ctx.count("transitions", nTrans); ctx.count("states", nTrans); if (nontriv) ctx.count("nontrivial");
-    if (aborted) { ctx.count("aborted_by_assert"); ctx.cls("abort", abortWhat); }
+    if (aborted) ctx.library_abort(abortWhat, desc);
     if (whyBuf[0]) ctx.violation(whyBuf, kc, desc, obsBuf);
 }
 static void phase(const Cfg &c, const vector<unsigned> &pinsets, int maxk, int tstep) {
